@@ -572,6 +572,42 @@ Example merge_manual_refused_once_walked :
   reset (mkVariant false false false) false mg_store [3] mg_refs mg_refs 1 (mg_cands [2; 4]) [] <> refused mg_refs.
 Proof. split; [vm_compute; reflexivity | vm_compute; discriminate]. Qed.
 
+(* non-vacuity of the hypotheses of the refusal theorems, for whatever variant the code has *)
+Example partial_hypotheses_satisfiable :
+  well_formed code_variant pl_store [3] mg_hist mg_refs 1 (mg_cands [2; 3; 4; 5]) /\
+  robot_merges_seen code_variant pl_store [3] /\
+  on_branch mg_refs (mg_cands [2; 3; 4; 5]) (mkW 10 0 [2; 3; 4; 5]) 1 5.
+Proof.
+  split; [|split].
+  - split.
+    + intros x H. destruct x as [|[|[|[|x]]]]; vm_compute in H; try discriminate H. reflexivity.
+    + split; [reflexivity|]. intros wb [<-|[]]. split; reflexivity.
+    + intros cs x E. cbn in E. injection E as <-.
+      destruct x as [|[|[|[|[|[|x]]]]]]; vm_compute; intro H; try discriminate H; auto.
+    + intros wb cd cw [<-|[]] Ed En. cbn in Ed, En. injection Ed as <-. injection En as <-.
+      intros x L. unfold Wlisted, listed in L. apply andb_true_iff in L as [L _].
+      destruct x as [|[|[|[|[|[|x]]]]]]; vm_compute in L; try discriminate L; cbn; auto.
+  - intros _ p H M. destruct p as [|[|[|[|[|[|p]]]]]]; vm_compute in H; try discriminate H; try reflexivity.
+    destruct p; discriminate H.
+  - repeat split. left; reflexivity.
+Qed.
+
+(* an order consistent with ancestry and complete exists: the hypotheses of the exactness theorems *)
+Example order_hypotheses_satisfiable :
+  topo pl_store (walk_of (mkVariant false false false) pl_store 1 5 [2; 4; 5]) /\
+  (forall x, Wlisted (mkVariant false false false) pl_store 1 5 x -> In x [2; 4; 5]).
+Proof.
+  split.
+  - change (walk_of (mkVariant false false false) pl_store 1 5 [2; 4; 5]) with [2; 5].
+    intros l1 c l2 E p Hp Hin.
+    destruct l1 as [|a [|b l1]].
+    + injection E as <- _. vm_compute in Hp. destruct Hp as [<-|[]]. destruct Hin as [H|[H|[]]]; discriminate H.
+    + injection E as <- <- _. vm_compute in Hp. destruct Hp as [<-|[]]. destruct Hin as [H|[H|[]]]; discriminate H.
+    + injection E as _ _ E. destruct l1; discriminate E.
+  - intros x L. unfold Wlisted in L.
+    destruct x as [|[|[|[|[|[|x]]]]]]; vm_compute in L; try discriminate L; cbn; auto.
+Qed.
+
 (* ------------------------------------------------------------------------------------------------
    3. scope: what the command deletes and declines
    ------------------------------------------------------------------------------------------------ *)
@@ -787,6 +823,17 @@ Proof.
   - rewrite N in Hn. destruct Hn.
   - rewrite (SR eq_refl eq_refl n). apply mem_true in Hn. rewrite Hn. reflexivity.
 Qed.
+
+(* scope, on a concrete repository: names 11 (an integration branch of another pull request), 12 (a queue branch)
+   and the source / destination keep their value; only the open pull request of the deleted branch is declined *)
+Example scope_example :
+  let refs := mg_refs ++ [(11, 3); (12, 1)] in
+  let prs := [mkPR 5 10 true; mkPR 6 1 true; mkPR 7 11 true; mkPR 8 10 false] in
+  let r := reset code_variant true pl_store [3] refs refs 1 (mg_cands [2; 3; 4; 5]) prs in
+  r_outcome r = ResetComplete /\ r_deleted r = [10] /\ r_declined r = [5] /\ r_pushes r = 1 /\
+  lookup (r_remote r) 10 = None /\ lookup (r_remote r) 11 = Some 3 /\ lookup (r_remote r) 12 = Some 1 /\
+  lookup (r_remote r) 0 = Some 1 /\ lookup (r_remote r) 1 = Some 4.
+Proof. vm_compute. repeat split. Qed.
 
 (* ---- names: the integration branches pass the guard of Branch.remove ---- *)
 From Coq Require Import String Ascii.
